@@ -17,7 +17,10 @@ SCRATCH_ROOT = os.environ.get('VERIF_SCRATCH', '/root/.cache/astrolabe-verif')
 QUICK_ROWS = (['fmt_%s_%d' % (sym, w) for sym in ('h', 'hh24', 'kk', 'k24', 'm', 'd', 'w') for w in (1, 2, 3)]
               + ['fmt_doy_%d' % w for w in (1, 2, 3, 4)] + ['fmt_y_%d' % w for w in (1, 3, 4, 5, 6)]
               + ['fmt_mon_1', 'fmt_mon_2', 'fmt_q_1', 'fmt_q_2', 'fmt_q_5', 'fmt_e_1', 'fmt_e_2', 'fmt_e_7', 'fmt_e_8', 'fmt_e_9']
-              + ['fmt_zX_%d' % w for w in (1, 2, 3, 4, 5, 6)] + ['fmt_zx_%d' % w for w in (1, 2, 3, 4, 5, 6)])
+              + ['fmt_zX_%d' % w for w in (1, 2, 3, 4, 5, 6)] + ['fmt_zx_%d' % w for w in (1, 2, 3, 4, 5, 6)]
+              + ['fmt_a_%d' % w for w in (1, 3, 4, 5, 6)] + ['fmt_b_%d' % w for w in (1, 3, 4, 5, 6)] + ['fmt_G_%d' % w for w in (1, 4, 5, 6)]
+              + ['fmt_mon_3', 'fmt_mon_4', 'fmt_mon_5', 'fmt_mon_6', 'fmt_e_3', 'fmt_e_4', 'fmt_e_5', 'fmt_e_6']
+              + ['fmt_dispatch_%s' % x for x in ('h', 'Hu', 'Ku', 'k', 'm', 'd', 'w', 'Du', 'y', 'Mu', 'q', 'e')])
 
 
 def all_rows():
@@ -132,7 +135,7 @@ def run(prop, tier, seed):
                 undecided.append('row %s: stubs not resolved (%s)' % (r, h['stubs']))
                 continue
             mine = [c for c in h['checks'] if relevant(c)]
-            row_assert = [c for c in mine if c[0].endswith('%s.assertion.1' % r) or ('.%s.assertion' % r) in c[0] or 'assertion failed' in c[2]]
+            row_assert = [c for c in mine if ('.%s.assertion' % r) in c[0] or 'assertion failed' in c[2]]
             if not row_assert:
                 undecided.append('row %s: the row assertion was not among the checks' % r)
                 continue
@@ -175,7 +178,7 @@ def run(prop, tier, seed):
                            'pattern part and full-domain symbolic days / nanoseconds / offset; zero_padded, zero_padded_i and alloc::fmt::format '
                            'are replaced by recording stubs (-Z stubbing) and the calendar getters by arbitrary in-range values, and the row '
                            'assertion states which value is rendered at which width in which order. Complete per row (no loop, no bound); '
-                           'quick tier leaves out the s rows (about 200 s each; they run in the thorough tier). NOT covered: rendered characters, literal glue, name tables (MMM.., eee.., a, b, G), yy, qqq/qqqq, the n rows '
+                           'quick tier leaves out the s rows (about 200 s each; they run in the thorough tier). NOT covered: rendered digits, the sign / colon / Q / ordinal glue produced by format!, yy, qqq/qqqq, the s dispatch and the n rows '
                            '(CBMC did not finish), the tokenizer and the assembly in format().',
             'evaluations': len(rows), 'distinct_nontrivial': len(ok_rows),
             'rule': 'one evaluation = one harness (symbol x width); non-trivial = the row assertion and every check located in src/ or the harness is SUCCESS',
